@@ -2,6 +2,8 @@
 import itertools
 
 import core
+import suites
+from proto import enc
 
 TRUSTED_BASE = [
     "Coq 8.16.1 kernel (coqc); vm_compute is not used by the C15 theorems; no native_compute",
@@ -47,3 +49,44 @@ def run(ctx):
     core.check_suite(ctx, "normalize_path", reqs, pred="c15_np_pred", exhaustive=False,
                      nontrivial=lambda rs: {a[0] for _, a in rs if has_dot(a[0])},
                      classes={"exhaustive_upto_segments": maxn})
+
+    # URL level: every entry point that can put a path under an authority
+    N = 3 if ctx.quick else 4
+    USEGS = [".", "..", "", "a", ".a", "%2E", "%2e%2E", "b."]
+    upaths = ["/".join(c) for n in range(0, N + 1) for c in itertools.product(USEGS, repeat=n)]
+    cases = []     # (kind, args..., program)
+    for p in upaths:
+        cases.append((0, ["/" + p], [["push", ["url", "http://h/" + p]]]))
+        cases.append((0, ["/x/" + p], [["push", ["url", "/x/" + p]]]))          # no authority: kept verbatim
+        cases.append((0, ["/y/" + p], [["push", ["url", "x:/y/" + p]]]))
+        cases.append((1, ["/" + p], [["push", ["build", "http", "", None, None, "h", None, "/" + p, None, "", "", False]]]))
+        cases.append((1, ["/" + p], [["push", ["url", "http://h/x"]], ["op", "with_path", "/" + p, False, False, False]]))
+        cases.append((1, [p], [["push", ["url", "http://h/x"]], ["op", "with_path", p, False, False, False]]))
+        cases.append((1, ["/z/" + p], [["push", ["url", "/x"]], ["op", "with_path", "/z/" + p, False, False, False]]))
+    segsets = [[s] for s in upaths if len(s) < 12][: (250 if ctx.quick else 3000)] + [[a, b] for a in USEGS + ["a/../b", "../c"] for b in USEGS + ["x/./y"]]
+    for base in ("http://h", "http://h/", "http://h/a", "http://h/a/", "http://h/a/b", "/a", "a/b"):
+        for segs in segsets:
+            if any(s.startswith("/") for s in segs):
+                continue
+            cases.append((2, [base, segs], [["push", ["url", base]], ["op", "joinpath", segs, False]]))
+            if len(segs) == 1:
+                cases.append((2, [base, segs], [["push", ["url", base]], ["op", "div", segs[0]]]))
+    outs = suites.observe(ctx, "C15-entry-points", [c[2] for c in cases], profile=0,
+                          classes={"paths": len(upaths), "cases": len(cases)})
+    bases = {}
+    for k in suites.backends(outs):
+        bo = suites.observe(ctx, "C15-bases", [[["push", ["url", b]]] for b in ("http://h", "http://h/", "http://h/a", "http://h/a/", "http://h/a/b", "/a", "a/b")], profile=0)
+        break
+    from proto import dec
+    blist = ["http://h", "http://h/", "http://h/a", "http://h/a/", "http://h/a/b", "/a", "a/b"]
+
+    def argline(k, i):
+        kind, a, prog = cases[i]
+        if kind == 2:
+            raw = dec(bo[k][blist.index(a[0])])[8]
+            stored = "" if a[0] == "http://h" else raw     # raw_path shows "/" for the empty path under an authority
+            return " ".join([enc(2), enc(stored), enc(a[1]), outs[k][i]])
+        return " ".join([enc(kind), enc(a[0]), outs[k][i]])
+    suites.apply_pred(ctx, "C15-entry-points", "c15_url_pred", outs, argline,
+                      lambda k, i: {"kind": cases[i][0], "args": cases[i][1], "program": cases[i][2], "impl": outs[k][i][:600]},
+                      kf=core.kf_list(ctx))
